@@ -30,6 +30,7 @@ type conn struct {
 	results  map[int]chan data
 	lock     sync.Mutex
 	counter  int32
+	closeErr error // set under lock once Close has been called: later calls fail at once
 	onClose  func(net.Conn)
 	once     sync.Once
 }
@@ -65,6 +66,13 @@ func newConn(ctx context.Context, onConnect func(net.Conn) net.Conn, onClose fun
 
 func (c *conn) store(index int, resultChan chan data) {
 	c.lock.Lock()
+	if c.closeErr != nil {
+		// registered after Close: nobody would ever clean this entry
+		err := c.closeErr
+		c.lock.Unlock()
+		resultChan <- data{Index: index, Error: err}
+		return
+	}
 	verifEvent("store", c, index)
 	c.results[index] = resultChan
 	c.lock.Unlock()
@@ -229,6 +237,11 @@ func (c *conn) Close(err error) {
 		c.onClose(c.Conn)
 		_ = c.Conn.Close()
 	})
+	c.lock.Lock()
+	if c.closeErr == nil {
+		c.closeErr = err
+	}
+	c.lock.Unlock()
 	c.rangeAndClean(func(index int, resultChan chan data) {
 		resultChan <- data{
 			Index: index,
